@@ -214,6 +214,7 @@ def run_symbolic(spec):
                         fz = getattr(scn, "witness_atoms", None)
                         env2 = _simplify_witness(tr, leaf, env, formula, nexp, m)
                         res["violations"].append(dict(name=name, env=[str(v) for v in env2], meta=meta, kind="obligation",
+                                                      alts=[[str(v) for v in a] for a in _alt_witnesses(tr, formula, nexp, env2, len(names))],
                                                       cell=[str(v) for v in leaf.env], unrepresentable=any(v.denominator > MAXDEN for v in env2[:nexp])))
             elif leaf.kind == "raise":
                 fnm, line, file = _where(leaf.tb)
@@ -226,6 +227,7 @@ def run_symbolic(spec):
                 if vname:
                     env = list(leaf.env)
                     keep = True
+                    f = None
                     if hasattr(scn, "raise_formula"):
                         # the raise is a violation only where this (z3) condition holds inside the cell
                         f = scn.raise_formula(tr)
@@ -248,6 +250,7 @@ def run_symbolic(spec):
                                 env = _simplify_witness(tr, leaf, env, f, nexp, m)
                     if keep:
                         res["violations"].append(dict(name=vname, env=[str(v) for v in env], meta={"exc": exc, "where": [file, fnm, line]},
+                                                      alts=[[str(v) for v in a] for a in _alt_witnesses(tr, f, nexp, [Fraction(v) for v in env], len(names))],
                                                       kind="raise", cell=[str(v) for v in leaf.env], unrepresentable=any(v.denominator > MAXDEN for v in env[:nexp])))
             elif leaf.kind == "budget" and hasattr(scn, "on_budget"):
                 rec["why"] = str(leaf.exc)[:160]
@@ -321,6 +324,36 @@ def _simplify_witness(tr, leaf, env, formula, nexp, model):
     return cur
 
 
+def _alt_witnesses(tr, formula, nexp, env, nvars):
+    """further witnesses of PC & formula whose explored values differ from `env` (a second model and the midpoint between
+    the two when it still satisfies everything): the replay falls back to them when the first witness, often a corner of
+    its cell, does not reproduce because the plain library rounds where the exact-real run does not"""
+    import z3
+
+    from symx.core import rv_const
+
+    if nexp == 0:
+        return []
+    alts = []
+    try:
+        pc = tr.pc_z3()
+        fs = [formula] if formula is not None else []
+        diff = z3.Or([tr.zvars[i] != rv_const(env[i]) for i in range(nexp)])
+        r, m = tr.check_fresh(*pc, *fs, diff, timeout_ms=3000)
+        if r != "sat":
+            return []
+        e2 = tr.model_env(m, nvars)
+        mid = [(env[i] + e2[i]) / 2 for i in range(nexp)]
+        pins = [tr.zvars[i] == rv_const(mid[i]) for i in range(nexp)]
+        r3, m3 = tr.check_fresh(*pc, *fs, *pins, timeout_ms=3000)
+        if r3 == "sat":
+            alts.append(tr.model_env(m3, nvars))
+        alts.append(e2)
+    except Exception:  # noqa
+        pass
+    return [a for a in alts if all(v.denominator <= MAXDEN for v in a[:nexp])]
+
+
 # ----------------------------------------------------------------- replay job
 
 
@@ -366,14 +399,24 @@ def run_replay(task):
             if v.get("unrepresentable"):
                 out["confirms"].append(dict(reproduced=False, text="witness not representable with denominators <= 1e8: not replayed", sig={}, skipped=True))
                 continue
-            xs = [Fraction(s) for s in v["env"]]
-            outcome, dg, exc = _plain_run(scn, xs, timeout=v.get("timeout"))
-            try:
-                okv, text = scn.confirm(v["name"], xs, outcome, exc)
-                sig = scn.signature(v["name"], xs, outcome, exc) if hasattr(scn, "signature") else {}
-            except Exception as e:  # noqa
-                okv, text, sig = False, "confirm() raised " + repr(e), {}
-            out["confirms"].append(dict(reproduced=bool(okv), text=text, sig=sig))
+            first = None
+            for k, envs in enumerate([v["env"]] + list(v.get("alts") or [])):
+                xs = [Fraction(s) for s in envs]
+                outcome, dg, exc = _plain_run(scn, xs, timeout=v.get("timeout"))
+                try:
+                    okv, text = scn.confirm(v["name"], xs, outcome, exc)
+                    sig = scn.signature(v["name"], xs, outcome, exc) if hasattr(scn, "signature") else {}
+                except Exception as e:  # noqa
+                    okv, text, sig = False, "confirm() raised " + repr(e), {}
+                c = dict(reproduced=bool(okv), text=text, sig=sig)
+                if k > 0:
+                    c["env"] = list(envs)  # an alternative witness of the same counterexample cell reproduced
+                if first is None:
+                    first = c
+                if okv:
+                    first = c
+                    break
+            out["confirms"].append(first)
         return out
     except BaseException as e:
         return dict(spec=task.get("spec"), ok=False, error="".join(traceback.format_exception(type(e), e, e.__traceback__))[-3000:])
